@@ -68,3 +68,27 @@ def conv_tol(backend, x, su, sv):
     if backend == "f64":
         return abs(want) * F64_REL
     return dec_tol(dec_conv_bound(abs(x), su, sv))
+
+
+class Err:
+    """Decimal error propagation: exact value v of the ideal computation and an absolute
+    bound e on the deviation of a fixed-point evaluation that rounds every * and / to 18
+    fractional digits (half-even)."""
+
+    def __init__(self, v, e=0):
+        self.v = Fraction(v)
+        self.e = Fraction(e)
+
+    def __mul__(self, o):
+        o = o if isinstance(o, Err) else Err(o)
+        return Err(self.v * o.v, abs(self.v) * o.e + abs(o.v) * self.e + self.e * o.e + H)
+
+    def __truediv__(self, o):
+        o = o if isinstance(o, Err) else Err(o)
+        den = abs(o.v) - o.e
+        if den <= 0:
+            return Err(self.v / o.v if o.v else 0, Fraction(10) ** 40)
+        return Err(self.v / o.v, (abs(self.v) * o.e / abs(o.v) + self.e) / den + H)
+
+    def tol(self):
+        return dec_tol(self.e)
